@@ -189,6 +189,9 @@ impl Braid {
     }
 
     fn _load(path: &str) -> Result<Braid, Box<dyn std::error::Error>> {
+        #[cfg(yui_verif)]
+        let json = yui_verif_rt::fs::read_to_string(path)?;
+        #[cfg(not(yui_verif))]
         let json = std::fs::read_to_string(path)?;
         let code: Vec<i32> = serde_json::from_str(&json)?;
         let braid = Braid::from_iter(code);
